@@ -601,6 +601,13 @@ impl Kademlia {
                 }
             }
             KademliaMessage::AddProvider { key, mut providers } => {
+                // `ADD_PROVIDER` is a request without a response: it must not be accepted as an
+                // answer to a locally originating request, otherwise the query would wait for
+                // the peer forever.
+                if query_id.is_some() {
+                    return Err(Error::InvalidData);
+                }
+
                 tracing::trace!(
                     target: LOG_TARGET,
                     ?peer,
@@ -1154,6 +1161,13 @@ impl Kademlia {
                                     ?error,
                                     "failed to process message",
                                 );
+
+                                // The peer answered a locally originating request with something
+                                // that is not a response. Nothing else is going to arrive for the
+                                // request, so it must be reported to the query as failed.
+                                if query_id.is_some() {
+                                    self.disconnect_peer(peer, query_id).await;
+                                }
                             }
                         }
                         QueryResult::ReadFailure { reason } => {
